@@ -54,6 +54,11 @@ R = {
  "C09c-remove-after-write-in-same-batch-drops-entry": ("C09", ["C09 quick: VIOLATION (38 s)"], "caught as built (third change for C09)"),
  "C12c-vec-decode-length-clamped": ("C12", ["C12 quick: VIOLATION (Vec<u8> of length 65537 decoded with length 65536)"],
    "missed at first: generated sequences are short. 14 sequence/map/string types are now enumerated at the lengths where the length prefix changes its width and around 2^16 and 2^21, each followed by a sentinel."),
+ "C06c-cyclic-signal-of-callee-repair-swallowed": ("C06", ["C06 quick: VIOLATION (regression replay fixed-c06-cycle-closed-by-edit.json fails again)"], "caught as built: the change takes back fix e5f3374, whose regression replay is re-run by every C06 run"),
+ "C08c-external-input-registry-in-own-batch": ("C08", ["C08 quick: VIOLATION (65 s, image 3/4: external input not re-read by refresh after recovery)"],
+   "missed at first: the recovered engine was edited and queried but never asked to refresh after the external world had moved. The continuation on every crash image now changes the world, refreshes, and queries every external input."),
+ "C11c-rocksdb-member-key-length-one-byte": ("C11", ["C11 quick: VIOLATION (133 s, RocksDB, 4 KiB set key)"], "caught as built (third change for C11; the multi-kilobyte keys of the key pool)"),
+ "C14b-combine-ignores-high-half-of-operand": ("C14", ["C14 quick: VIOLATION ([u8; 0] and [u8; 3] share one id)"], "caught as built (second change for C14)"),
 }
 rows = []
 for sid, (prop, ran, note) in R.items():
